@@ -56,10 +56,18 @@ class Group:
     def sample_group(self, rng, prefix, tscale=1.0):
         env = {}
         vals = [rng.gauss(0, 1) * tscale for _ in range(self.rep)]
+        special = rng.random() < 0.15
         for grp in self.unit:
             v = [rng.gauss(0, 1) for _ in grp]
             n = math.sqrt(sum(x * x for x in v))
             v = [x / n for x in v]
+            if special:
+                # branch-cut / axis-aligned elements: identity, half turns, quarter turns (exact coefficients)
+                if len(grp) == 2:
+                    v = list(rng.choice([(0.0, 1.0), (0.0, -1.0), (-0.0, -1.0), (1.0, 0.0), (-1.0, 0.0)]))
+                else:
+                    v = list(rng.choice([(0.0, 0.0, 0.0, 1.0), (1.0, 0.0, 0.0, 0.0), (0.0, 1.0, 0.0, 0.0), (0.0, 0.0, 1.0, 0.0),
+                                         (0.0, 0.0, math.sqrt(0.5), math.sqrt(0.5))]))
             if self.rot_kind == "so3" and v[-1] < 0:
                 v = [-x for x in v]
             for i, x in zip(grp, v):
